@@ -30,7 +30,7 @@ RULE = (
 )
 ASSUMPTIONS = [
     "crash model: the process dies between two write calls with an intact filesystem (torn single writes and power-loss reordering are out of reach of an in-process harness)",
-    "a file that has been opened but not yet received its first write may be absent or empty",
+    "a file is judged at the moments a write call returns: between creating a file and writing its header no other write happens on the unchanged tree, so every output file present at such a moment must already hold a complete header (left-overs not yet touched excepted)",
     "FourierSeries.to_spec is not in the property's list of writers (a .spec 'sample' is one float while its reader needs float pairs) and is not exercised",
 ]
 
@@ -130,9 +130,11 @@ def run_op(case, paths, outdir):
 class Spy:
     """Wraps FileWriter.write / cwrite: records a snapshot of the file after every call, or raises at the k-th."""
 
-    def __init__(self, outdir, fail_at=None):
+    def __init__(self, outdir, fail_at=None, stale=None):
         self.outdir = outdir
         self.fail_at = fail_at
+        self.stale = stale or {}
+        self.headerless = []  # (write number, file name, size): a file of the operation on disk without a complete header
         self.calls = []  # (path, kind, expected_nbytes, snapshot bytes)
         self.n = 0
 
@@ -173,6 +175,20 @@ class Spy:
         with open(path, "rb") as fp:
             snap = fp.read()
         self.calls.append((path, kind, nbytes, snap))
+        # every OTHER file of the operation that exists at this moment would survive a crash now: it must already open
+        # (a complete header), unless it is a left-over the operation has not touched yet
+        for name in os.listdir(self.outdir):
+            fp_ = os.path.join(self.outdir, name)
+            if fp_ == path or not os.path.isfile(fp_):
+                continue
+            with open(fp_, "rb") as fp:
+                other = fp.read()
+            if name in self.stale and other == self.stale[name]:
+                continue
+            try:
+                sigfile.parse_header_bytes(other)
+            except Exception:  # noqa: BLE001
+                self.headerless.append((self.n, name, len(other)))
 
 
 def read_back(path, kind, k, nchans, ctxt):
@@ -224,12 +240,16 @@ def check(case, ctx):
 
     prepopulate(out0)
     ctxt += f" preexisting_output={['none', 'short', 'longer'][pre]}"
-    with Spy(out0) as spy:
+    with Spy(out0, stale=stale) as spy:
         try:
             outs = run_op(case, paths, out0)
         except Exception as exc:  # noqa: BLE001
             raise Violation(f"writer:raised:{type(exc).__name__}", f"{ctxt}: {exc!r}") from exc
     W = spy.n
+    if spy.headerless:
+        k, name, size = spy.headerless[0]
+        raise Violation("observe:file-on-disk-without-header", f"{ctxt}: after write {k} of {W} the output {name} exists with {size} bytes and no complete header "
+                        f"(a crash now leaves a file the reader rejects); {len(spy.headerless)} such observations")
     per_path = {}
     for (path, kind, nbytes, snap) in spy.calls:
         per_path.setdefault(path, []).append((kind, nbytes, snap))
